@@ -26,6 +26,9 @@ type RedisOp struct {
 	PX     time.Duration
 	Hit    bool // GET: a live value was returned; SET: the value was stored
 	Expire time.Time
+	// SET: the live value the key held when the command arrived (nil if none) and its expiry
+	Prev       []byte
+	PrevExpire time.Time
 }
 
 type redisEntry struct {
@@ -45,6 +48,7 @@ type FakeRedis struct {
 	Delay  atomic.Int64
 	closed atomic.Bool
 	Hits   atomic.Int64
+	Pings  atomic.Int64
 	Sets   atomic.Int64
 }
 
@@ -185,6 +189,7 @@ func (r *FakeRedis) serve(c net.Conn) {
 		case "CLUSTER":
 			bw.WriteString("-ERR This instance has cluster support disabled\r\n")
 		case "PING":
+			r.Pings.Add(1)
 			bw.WriteString("+PONG\r\n")
 		case "GET":
 			if len(args) != 2 {
@@ -261,6 +266,9 @@ func (r *FakeRedis) serve(c net.Conn) {
 			r.mu.Lock()
 			cur, live := r.data[string(op.Key)]
 			live = live && cur.expire.After(now)
+			if live {
+				op.Prev, op.PrevExpire = cur.v, cur.expire
+			}
 			if op.NX && live {
 				op.Hit = false
 			} else {
